@@ -43,6 +43,7 @@ var Properties = map[string]func(*Ctx){
 func C14(c *Ctx) {
 	R17YaotlTags(c)
 	R17Consumers(c)
+	R17Gohcl(c)
 	R18ErrDrop(c)
 }
 
@@ -51,12 +52,16 @@ func C13(c *Ctx) {
 	R15ConfigOrder(c)
 	R15EnumFam(c)
 	R15ErrDiscipline(c)
+	R15NoCarry(c)
+	R8PackerWidth(c)
 	R16ShellSink(c)
 }
 
 func C15(c *Ctx) {
 	R15Socks(c)
 	R15ClosePropagation(c)
+	R8CmpWidth(c, 1)
+	R15FailureCloses(c)
 	R4Lockset(c, sharedRelayTables, 10)
 	isRelay := func(fn string) bool {
 		for _, s := range []string{"TaskPrepare", "TaskDispatch", "PortFwd", "SocksClient", "SocksServer", "socks."} {
@@ -79,6 +84,7 @@ func C04(c *Ctx) {
 func C16(c *Ctx) {
 	R12Registry(c)
 	R12OwnerEndpoints(c)
+	R12EndpointKey(c)
 	R9NameIdentity(c)
 	R5RangeMut(c, func(fn string) bool {
 		return strings.Contains(fn, "service.") || strings.Contains(fn, "ListenerRemove") || strings.Contains(fn, "EndpointRemove") || strings.Contains(fn, "EventRemove")
@@ -104,6 +110,7 @@ func C16(c *Ctx) {
 
 func C12(c *Ctx) {
 	R11HTTPProfile(c)
+	R11RedirProvenance(c)
 }
 
 func C11(c *Ctx) {
@@ -160,6 +167,7 @@ func C02(c *Ctx) {
 	R8Exhaustive(c)
 	R8Sibling(c)
 	R8ByteOrder(c)
+	R8PackerWidth(c)
 	R8Encrypt(c)
 	R8RequestID(c)
 	R8Terminators(c)
